@@ -144,14 +144,40 @@ def check_sequence(text, exp, case):
         fail("sequence", case, text, "expected %d tokens, got %d" % (len(exp), len(got)), "token-count")
 
 
+def lex_reused(lx, text, errs):
+    lx.input(text, "f.c")
+    toks = []
+    for _ in range(len(text) + 3):
+        t = lx.token()
+        if t is None:
+            break
+        toks.append((t.type, t.value, t.lineno, t.column))
+    return toks
+
+
 def seq_shard(arg):
     seed, n = arg
     st = Stats()
+    # one long-lived lexer per shard: before every case it is left in an
+    # abandoned state (a Hypothesis-chosen number of tokens of a pragma-rich text
+    # consumed), then given the new text through input()
+    rerrs = []
+    reused = CLexer(lambda m, l, c: rerrs.append((m, l, c)), lambda: None, lambda: None, lambda n: n in LOOKUP_YES)
+    junk = "int a =\n#pragma omp parallel for\n 1 ;\n# 7 \"old.h\"\n#pragma once\nx y z"
 
     def body(c):
         text, exp, info = build_sequence(c)
         st.evaluations += 1
         check_sequence(text, exp, ("seq", text, exp))
+        k = c.int(0, 12)
+        reused.input(junk, "old.c")
+        for _ in range(k):
+            if reused.token() is None:
+                break
+        del rerrs[:]
+        got = lex_reused(reused, text, rerrs)
+        if got != exp or rerrs:
+            fail("sequence", ("reuse", k, text, exp), text, "a reused CLexer (abandoned after %d tokens of another text, then input()) returned %r..., errors %r; expected %r..." % (k, got[:3], rerrs[:1], exp[:3]), "reused-lexer")
         if info["ndir"] >= 1 and info["nadj"] >= 1:
             st.nt(text)
         st.classes["with_directive" if info["ndir"] else "no_directive"] += 1
@@ -371,6 +397,18 @@ def replay(subcheck, case):
         bad = [f for f in r.failures if f["case"] == tuple(case) or list(f["case"]) == list(case)]
         if bad:
             raise CheckFailure(**bad[0])
+        return
+    if case[0] == "reuse":
+        _, k, text, exp = case
+        rerrs = []
+        lx = CLexer(lambda m, l, c: rerrs.append((m, l, c)), lambda: None, lambda: None, lambda n: n in LOOKUP_YES)
+        lx.input("int a =\n#pragma omp parallel for\n 1 ;\n# 7 \"old.h\"\n#pragma once\nx y z", "old.c")
+        for _ in range(k):
+            if lx.token() is None:
+                break
+        got = lex_reused(lx, text, rerrs)
+        if got != [tuple(x) for x in exp]:
+            fail("sequence", case, text, "reused lexer differs", "reused-lexer")
         return
     if case[0] == "seq":
         check_sequence(case[1], [tuple(x) for x in case[2]], case)
